@@ -102,7 +102,7 @@ func (sh *blobShape) lenOf(x ssa.Value, recv *ssa.Parameter) string {
 
 func runC19(c *core.Ctx) {
 	runFixtures(c, "bounds", "locks")
-	c.Explain("Structural clauses of C19 decided from source: (R19.1) every slice/make whose bounds depend on a parameter in a slice-backed Blob method is entailed safe by the dominating comparisons (difference-constraint closure), and every int64 parameter of View/Slice/Set/Grow/Truncate has a 'negative => error' guard dominating all mutations; (R19.2) View/Slice select receiver data by [start:end]; (R19.3) View aliases (shares array and mutex), Slice copies into a fresh allocation; (R19.4) no interface dispatch / re-locking call while the blob mutex may be held; (R19.5) every store to the data field is followed by the atomic length mirror in the same block; (R19.6) in the js/wasm typed-array Blob every value written to the mirrored length is non-negative by guards or was accepted by a typed-array allocation (guard-set differences to blob.Bytes are listed as information only: the JS engine clamps or validates the rest), and View/Slice use subarray/slice(start,end). (R19.7) the length reads behind the guards of a slice of the mutex-guarded buffer are made inside the critical section that slices (an unlocked fast-path test repeated under the lock is accepted): a bound checked before locking is stale when another handle resizes the blob, and the slice panics instead of returning an error. NOT claimed: byte-exact equality with a []byte model over operation sequences, aliasing after Grow reallocates, behaviour of the JS engine.")
+	c.Explain("Structural clauses of C19 decided from source: (R19.1) every slice/make whose bounds depend on a parameter in a slice-backed Blob method is entailed safe by the dominating comparisons (difference-constraint closure), and every int64 parameter of View/Slice/Set/Grow/Truncate has a 'negative => error' guard dominating all mutations; (R19.2) View/Slice select receiver data by [start:end]; (R19.3) View aliases (shares array and mutex), Slice copies into a fresh allocation; (R19.4) no interface dispatch / re-locking call while the blob mutex may be held; (R19.5) every store to the data field is followed by the atomic length mirror in the same block; (R19.6) in the js/wasm typed-array Blob every value written to the mirrored length is non-negative by guards or was accepted by a typed-array allocation (guard-set differences to blob.Bytes are listed as information only: the JS engine clamps or validates the rest), and View/Slice use subarray/slice(start,end). (R19.7) the length reads behind the guards of a slice of the mutex-guarded buffer are made inside the critical section that slices (an unlocked fast-path test repeated under the lock is accepted): a bound checked before locking is stale when another handle resizes the blob, and the slice panics instead of returning an error. (R19.8) no method of the slice-backed blob contains an explicit panic: 'cannot happen' errors of its own methods do happen when another handle resizes the blob between a length read and the call (Bytes() panicked this way). (R19.9) View and Slice of every Blob type return a blob value other than the receiver (no full-range 'return b' fast path). (R19.10) in the js/wasm blob a slice that is made the Go-side cache is not returned to the caller as well. NOT claimed: byte-exact equality with a []byte model over operation sequences, aliasing after Grow reallocates, behaviour of the JS engine.")
 	c.Assume("A5: all length reads of one receiver inside one method denote one value (sequential reading; concurrent resize between check and use is C15's matter)",
 		"A2: stdlib (sync, sync/atomic, builtin copy/append) behaves as documented; int64->int conversions do not truncate (64-bit int; the 386 target is type-checked in the thorough tier only)")
 	c.RuleDoc("R19.1", "every parameter-dependent slice/make bound in a slice-backed Blob method is entailed by dominating guards; negative => error guard per int64 parameter")
@@ -110,6 +110,9 @@ func runC19(c *core.Ctx) {
 	c.RuleDoc("R19.3", "View result aliases receiver array+mutex; Slice result is a fresh allocation filled by copy")
 	c.RuleDoc("R19.4", "no invoke / lock-acquiring call while the blob mutex may be held")
 	c.RuleDoc("R19.5", "store to data field is followed by atomic length mirror")
+	c.RuleDoc("R19.10", "the typed-array blob never returns the slice that backs its Go-side cache")
+	c.RuleDoc("R19.9", "View and Slice never return the receiver itself")
+	c.RuleDoc("R19.8", "no method of the slice-backed blob panics on purpose")
 	c.RuleDoc("R19.7", "the bounds of a slice of the mutex-guarded buffer are checked inside the critical section that slices")
 	c.RuleDoc("R19.6", "typed-array Blob (js/wasm): stored length is guarded non-negative or validated by an allocation")
 	var refGuards map[string][]string
@@ -131,6 +134,7 @@ func runC19(c *core.Ctx) {
 		}
 		c.Info("blob_types_"+p.Target.GOOS, names)
 		for _, n := range impls {
+			r19FreshView(c, p, n)
 			sh := discoverBlobShape(p, n)
 			if sh == nil {
 				continue
@@ -138,12 +142,14 @@ func runC19(c *core.Ctx) {
 			if sh.dataField != "" {
 				r19SliceBacked(c, p, sh)
 				r19SameSection(c, p, sh, "R19.7")
+				r19NoPanic(c, p, sh)
 				if refGuards == nil {
 					refGuards = guardSets(sh)
 				}
 			}
 		}
 		if p.Target == load.Wasm {
+			r19CacheNotHandedOut(c, p)
 			for _, n := range impls {
 				sh := discoverBlobShape(p, n)
 				if sh == nil || sh.dataField != "" {
@@ -160,6 +166,9 @@ func runC19(c *core.Ctx) {
 	c.Floor("R19.5", 2)
 	c.Floor("R19.6", 2)
 	c.Floor("R19.7", 3)
+	c.Floor("R19.8", 6)
+	c.Floor("R19.9", 4)
+	c.Floor("R19.10", 1)
 }
 
 var blobOps = []string{"View", "Slice", "Set", "Grow", "Truncate"}
@@ -217,6 +226,8 @@ func r19SliceBacked(c *core.Ctx, p *load.Program, sh *blobShape) {
 					s, _ := canon(bo.Y)
 					ok = b.LE(s, a, 0)
 					desc = "length is a difference that may be negative (subtrahend <= minuend not entailed)"
+				} else if lc, isLen := ssax.StripIntConv(x.Len).(*ssa.Call); isLen && isLenCall(lc) {
+					ok = true // len(x) is never negative
 				} else {
 					n, _ := canon(x.Len)
 					ok = b.LE(zero, n, 0)
@@ -1036,6 +1047,109 @@ func r19SameSection(c *core.Ctx, p *load.Program, sh *blobShape, rule string) {
 			default:
 				c.OK(rule, key, p.Pos(x.Pos()), "bounds are checked and used inside one critical section")
 			}
+		})
+	}
+}
+
+// r19NoPanic (R19.8)
+func r19NoPanic(c *core.Ctx, p *load.Program, sh *blobShape) {
+	tk := typeKey(sh.named)
+	var mnames []string
+	for n := range sh.methods {
+		mnames = append(mnames, n)
+	}
+	sort.Strings(mnames)
+	for _, mn := range mnames {
+		fn := sh.methods[mn]
+		if fn.Blocks == nil {
+			continue
+		}
+		var pn *ssa.Panic
+		ssax.InstrsDeep(fn, func(_ *ssa.Function, ins ssa.Instruction) {
+			if x, ok := ins.(*ssa.Panic); ok && pn == nil {
+				pn = x
+			}
+		})
+		key := tk + "." + mn + "|no-deliberate-panic"
+		if pn != nil {
+			c.Bad("R19.8", key, p.Pos(pn.Pos()), fmt.Sprintf("%s panics on purpose: the error it treats as impossible (an out-of-bounds answer of another method of the same blob) does occur when a second handle resizes the blob between this method's length read and that call — blob operations report failures as errors, never as panics", fname(fn)))
+		} else {
+			c.OK("R19.8", key, p.Pos(fn.Pos()), "no explicit panic")
+		}
+	}
+}
+
+// r19FreshView (R19.9): View and Slice of every Blob type hand out a new blob value, never the receiver itself — a
+// view that IS the parent is resized with it (Grow/Truncate on one side changes the other's length), which a view
+// with its own length is not.
+func r19FreshView(c *core.Ctx, p *load.Program, n *types.Named) {
+	ms := methodsOf(p, n)
+	for _, mn := range []string{"View", "Slice"} {
+		fn := ms[mn]
+		if fn == nil || fn.Blocks == nil {
+			continue
+		}
+		recv := recvParam(fn)
+		key := typeKey(n) + "." + mn + "|never-returns-the-receiver"
+		bad := ""
+		for _, r := range ssax.Returns(fn) {
+			v := r.Results[0]
+			for i := 0; i < 3; i++ {
+				switch x := v.(type) {
+				case *ssa.MakeInterface:
+					v = x.X
+				case *ssa.ChangeInterface:
+					v = x.X
+				}
+			}
+			if v == ssa.Value(recv) {
+				bad = p.Pos(r.Pos())
+			}
+		}
+		c.Check(bad == "", "R19.9", key, p.Pos(fn.Pos()), "every return hands out another blob value than the receiver",
+			fmt.Sprintf("%s returns the receiver itself at %s (a full-range fast path): Truncate or Grow on that 'view' resizes the parent, and resizing the parent changes the view's Len and Bytes — a view has its own length", fname(fn), bad))
+	}
+}
+
+// r19CacheNotHandedOut (R19.10): in the typed-array blob, a byte slice that becomes the Go-side cache (it is wrapped
+// with blob.NewBytes and stored into the cache field) is not also returned to the caller: Bytes() promises a copy, and
+// a caller scribbling on the returned slice would change what later Bytes() calls answer while the JS value stays.
+func r19CacheNotHandedOut(c *core.Ctx, p *load.Program) {
+	for _, fn := range pkgFuncs(p, "indexeddb/idbblob") {
+		ord := ordinals{}
+		ssax.Instrs(fn, func(ins ssa.Instruction) {
+			nb, ok := ins.(*ssa.Call)
+			if !ok || !ssax.CalleeIs(nb, mod+"/keyvalue/blob", "NewBytes") || len(nb.Call.Args) != 1 {
+				return
+			}
+			// stored into an atomic.Value (the cache)?
+			stored := false
+			if nb.Referrers() != nil {
+				for _, r := range *nb.Referrers() {
+					if mi, ok := r.(*ssa.MakeInterface); ok && mi.Referrers() != nil {
+						for _, r2 := range *mi.Referrers() {
+							if sc, ok := r2.(*ssa.Call); ok && ssax.CalleeIs(sc, "sync/atomic", "(*Value).Store") {
+								stored = true
+							}
+						}
+					}
+				}
+			}
+			if !stored {
+				return
+			}
+			key := fname(fn) + "|" + ord.next("cache-fill")
+			buf := nb.Call.Args[0]
+			returned := false
+			for _, r := range ssax.Returns(fn) {
+				for _, v := range r.Results {
+					if v == buf {
+						returned = true
+					}
+				}
+			}
+			c.Check(!returned, "R19.10", key, p.Pos(nb.Pos()), "the slice that backs the cache is not returned",
+				fmt.Sprintf("%s returns the very slice it has just made the Go-side cache of the blob: the caller holds the cache's backing array, so writing to the result of Bytes() changes what later Bytes()/Slice() calls answer while the typed array is unchanged", fname(fn)))
 		})
 	}
 }
